@@ -35,6 +35,14 @@ def run(chk):
 
     ACC, DIS = "accepted", "displaced"
     cfg = fn.cfg
+    # roles, taken from the code: the previous iterate is the local vector that starts as a copy of state.x, the trial point is the output argument of the projection
+    projp = [p_ for p_ in fn.params() if "ProjectionFunction" in p_["t"]]
+    pjc = [c for c in fn.walk() if c.get("k") == "CXXOperatorCallExpr" and c.get("op") == "()" and projp and var_of(c["c"][1]) == projp[0]["did"]]
+    prevd = [d for d in fn.locals().values() if d.get("k") == "VarDecl" and d.get("c") and txt(strip(d["c"][0])) == "state.x" and "vector" in (d.get("t") or "")]
+    if len(pjc) != 1 or len(prevd) != 1:
+        raise AnalysisBroken("GradientDescent: expected one call of the projection and one local copy of state.x (found %d / %d)" % (len(pjc), len(prevd)))
+    TRIAL = txt(strip(pjc[0]["c"][3]))
+    PREV = prevd[0]["name"]
 
     def transfer(st, blk):
         for e in blk["e"]:
@@ -42,9 +50,9 @@ def run(chk):
                 n = fn.nodes.get(e)
                 if n is None:
                     continue
-                if is_swap(n, "x0", "state.x"):
+                if is_swap(n, PREV, "state.x"):
                     st = DIS if st == ACC else ACC
-                elif is_swap(n, "xStep", "state.x"):
+                elif is_swap(n, TRIAL, "state.x"):
                     st = ACC
         return st
     IN = forward(cfg, ACC, transfer, lambda st, blk, i: st, lambda a, b: DIS if DIS in (a, b) else ACC)
@@ -59,13 +67,13 @@ def run(chk):
             for e in cfg.blocks[b]["e"][:idx]:
                 if isinstance(e, int) and fn.nodes.get(e) is not None:
                     x = fn.nodes[e]
-                    if is_swap(x, "x0", "state.x"):
+                    if is_swap(x, PREV, "state.x"):
                         st = DIS if st == ACC else ACC
-                    elif is_swap(x, "xStep", "state.x"):
+                    elif is_swap(x, TRIAL, "state.x"):
                         st = ACC
             loops = [a.get("k") for a in fn.ancestors(n) if a.get("k") in ("WhileStmt", "DoStmt", "ForStmt")]
             chk.ob("C19-D1.restore", fn.name, "return at nesting %s" % ("/".join(reversed(loops)) or "top"), st == ACC, fn.loc(n),
-                   "the state holds the accepted iterate" if st == ACC else "state.x still holds the displaced (older) point: the accepted iterate is left in x0")
+                   "the state holds the accepted iterate" if st == ACC else "state.x still holds the displaced (older) point: the accepted iterate is left in the local copy")
     chk.floor("C19-D1.restore", nret, 2, "return statements of the adaptive GradientDescent")
     # D3.accept: writes to state.x
     nsw = 0
@@ -75,7 +83,7 @@ def run(chk):
         if n.get("k") == "CallExpr" and callee(n) == "std::swap" and "state.x" in [txt(strip(z)) for z in call_args(n)[:2]]:
             nsw += 1
             other = [txt(strip(z)) for z in call_args(n)[:2] if txt(strip(z)) != "state.x"][0]
-            if other == "xStep":
+            if other == TRIAL:
                 edges = [(txt(strip(c)), tr) for c, tr in cond_edges_dominating(fn, n)]
                 # exit edge of the do-while descent test
                 dos = [d for d in walk(fn.body) if d.get("k") == "DoStmt"]
@@ -89,14 +97,15 @@ def run(chk):
                         if cs and cs[2] is not None and cfg.dominates(cs[2], sb[0]) and "lhs" in txt(d["cond"]):
                             okx = True
                 chk.ob("C19-D3.accept", fn.name, "accepting swap only after the descent test failed to reject", okx, fn.loc(n), "dominating edges %s" % edges)
-            elif other != "x0":
-                chk.ob("C19-D3.accept", fn.name, "state.x swapped with %s" % other, False, fn.loc(n), "only x0 and xStep may be exchanged with the state")
+            elif other != PREV:
+                chk.ob("C19-D3.accept", fn.name, "state.x swapped with %s" % other, False, fn.loc(n), "only the previous iterate (%s) and the trial point (%s) may be exchanged with the state" % (PREV, TRIAL))
         elif n.get("k") in ("BinaryOperator", "CXXOperatorCallExpr") and n.get("op") == "=" and txt(strip(n["c"][-2] if n.get("k") == "BinaryOperator" else n["c"][1])).startswith("state.x"):
             chk.ob("C19-D3.accept", fn.name, "direct write %s" % t[:50], False, fn.loc(n), "state.x must only change through the accept / restore swaps")
     chk.floor("C19-D3.accept", nsw, 2, "swaps involving state.x")
     # xStep is the output of proj
-    pj = [c for c in fn.walk() if c.get("k") == "CXXOperatorCallExpr" and c.get("op") == "()" and txt(strip(c["c"][1])) == "proj"]
-    chk.ob("C19-D3.accept", fn.name, "xStep is produced by proj", len(pj) == 1 and txt(strip(pj[0]["c"][3])) == "xStep", fn.loc(pj[0]) if pj else fn.where)
+    pj = pjc
+    sw_trial = [n for n in fn.walk() if n.get("k") == "CallExpr" and callee(n) == "std::swap" and is_swap(n, TRIAL, "state.x")]
+    chk.ob("C19-D3.accept", fn.name, "the point exchanged with the state on acceptance is the output of the projection", len(sw_trial) >= 1, fn.loc(pj[0]), "trial point `%s`" % TRIAL)
     fx = [c for c in fn.walk() if c.get("k") == "CXXOperatorCallExpr" and c.get("op") == "()" and txt(strip(c["c"][1])) == "func"]
 
     # D2.cap
